@@ -241,3 +241,247 @@ Section Proofs.
   Qed.
 
 End Proofs.
+
+(* ====================================================================== *)
+(* Wave 2: composition with the simulator and a lossy, re-polling viewer    *)
+
+(* The assumption on the simulator's data (its behaviour - every batch is sent at most once, in order, and is
+   gone afterwards - is the [y_sim]/[y_served] discipline of EventQueue.sys_step) *)
+Record sim_ok (batches : list payload) : Prop := {
+  sim_ids_distinct : NoDup (map p_id batches);
+  sim_tagged : Forall (fun b => Forall (fun e => is_sim e = true) (p_events b)) batches;
+}.
+
+Lemma existsb_N_In : forall x l, existsb (N.eqb x) l = true <-> In x l.
+Proof.
+  intros x l. rewrite existsb_exists. split.
+  - intros [y [Hin E]]. apply N.eqb_eq in E. subst. exact Hin.
+  - intro H. exists x. split; [exact H|apply N.eqb_refl].
+Qed.
+
+Section Composition.
+  Variable swallow : ev -> bool.
+  Variable batches : list payload.
+  Hypothesis Hsim : sim_ok batches.
+
+  Record Inv (y : Sys) : Prop := {
+    i_split : y_served y ++ y_sim y = batches;
+    i_queued : Forall (fun e => is_inj e = true) (q_queued (y_eq y));
+    i_seen : forall i, In i (v_seen (y_viewer y)) -> In i (map p_id (y_served y));
+    i_cache_id : forall p, q_last_payload (y_eq y) = Some p -> In (p_id p) (map p_id (y_served y));
+    i_pending_key : forall p, q_last_payload (y_eq y) = Some p ->
+                    existsb (N.eqb (p_id p)) (v_seen (y_viewer y)) = false -> q_last_ack (y_eq y) = v_ack (y_viewer y);
+    i_sim : filter is_sim (v_accepted (y_viewer y) ++ in_flight y) = keep swallow (flat_map p_events (y_served y));
+    i_inj : filter is_inj (v_accepted (y_viewer y) ++ in_flight y) ++ q_queued (y_eq y) = y_injected y;
+  }.
+
+  Lemma inv_init : Inv (sys_init batches).
+  Proof. constructor; cbn; try reflexivity; try constructor; try tauto; discriminate. Qed.
+
+  (* a step that leaves the proxy state, the viewer and the served batches alone *)
+  Lemma inv_same : forall y y',
+    Inv y -> y_eq y' = y_eq y -> y_viewer y' = y_viewer y -> y_served y' = y_served y ->
+    y_injected y' = y_injected y -> y_served y' ++ y_sim y' = batches -> Inv y'.
+  Proof.
+    intros y y' [H0 H1 H2 H3 H4 H5 H6] Eq Ev Es Ei Hsplit.
+    assert (Hf : in_flight y' = in_flight y) by (unfold in_flight; rewrite Eq, Ev; reflexivity).
+    constructor; [exact Hsplit|..]; rewrite ?Eq, ?Ev, ?Es, ?Ei, ?Hf; assumption.
+  Qed.
+
+  Lemma miss_no_in_flight : forall y,
+    Inv y -> poll_request (y_eq y) (v_ack (y_viewer y)) = None -> in_flight y = [].
+  Proof.
+    intros y HI Ep. unfold in_flight. destruct (q_last_payload (y_eq y)) as [p|] eqn:El; [|reflexivity].
+    destruct (existsb (N.eqb (p_id p)) (v_seen (y_viewer y))) eqn:Es; [reflexivity|].
+    exfalso. pose proof (i_pending_key y HI p El Es) as Hk.
+    unfold poll_request in Ep. rewrite Hk, opt_N_eqb_refl, El in Ep. discriminate.
+  Qed.
+
+  Lemma fresh_id : forall y b rest,
+    Inv y -> y_sim y = b :: rest -> existsb (N.eqb (p_id b)) (v_seen (y_viewer y)) = false.
+  Proof.
+    intros y b rest HI Es. destruct (existsb (N.eqb (p_id b)) (v_seen (y_viewer y))) eqn:E; [|reflexivity].
+    exfalso. apply existsb_N_In in E. apply (i_seen y HI) in E.
+    pose proof (sim_ids_distinct _ Hsim) as Hnd. rewrite <- (i_split y HI), Es, map_app in Hnd. cbn [map] in Hnd.
+    apply NoDup_remove_2 in Hnd. apply Hnd. apply in_or_app. left. exact E.
+  Qed.
+
+  Lemma batch_tagged : forall y b rest, Inv y -> y_sim y = b :: rest -> Forall (fun e => is_sim e = true) (p_events b).
+  Proof.
+    intros y b rest HI Es. pose proof (sim_tagged _ Hsim) as Ht. rewrite <- (i_split y HI), Es in Ht.
+    apply Forall_app in Ht as [_ Ht]. inversion Ht; assumption.
+  Qed.
+
+  Lemma filter_sim_inj_tagged : forall l, Forall (fun e => is_inj e = true) l -> filter is_sim l = [] /\ filter is_inj l = l.
+  Proof.
+    intros l H. split.
+    - apply filter_none. eapply Forall_impl; [|exact H]. intros e He. unfold is_inj in He. apply negb_true_iff in He. exact He.
+    - apply filter_all. exact H.
+  Qed.
+
+  Lemma filter_sim_sim_tagged : forall l, Forall (fun e => is_sim e = true) l -> filter is_sim l = l /\ filter is_inj l = [].
+  Proof.
+    intros l H. split.
+    - apply filter_all. exact H.
+    - apply filter_none. eapply Forall_impl; [|exact H]. intros e He. unfold is_inj. rewrite He. reflexivity.
+  Qed.
+
+  Lemma served_snoc : forall served b,
+    keep swallow (flat_map p_events (served ++ [b])) = keep swallow (flat_map p_events served) ++ keep swallow (p_events b).
+  Proof. intros. rewrite flat_map_app. cbn [flat_map]. rewrite app_nil_r. unfold keep. apply filter_app. Qed.
+
+  Lemma inv_step : forall y o,
+    Inv y ->
+    Inv (sys_step swallow y o) /\
+    (forall reply, o = YCycle reply false -> in_flight (sys_step swallow y o) = []).
+  Proof.
+    intros y o HI. destruct o as [n|reply lost].
+    - (* injection *)
+      split; [|discriminate]. destruct HI as [H0 H1 H2 H3 H4 H5 H6]. cbn [sys_step].
+      constructor; cbn [y_eq y_viewer y_sim y_served y_injected inject q_queued q_last_payload q_last_ack]; try assumption.
+      + apply Forall_app. split; [exact H1|]. constructor; [reflexivity|constructor].
+      + rewrite app_assoc. f_equal. exact H6.
+    - cbn [sys_step]. destruct (poll_request (y_eq y) (v_ack (y_viewer y))) as [p|] eqn:Ep.
+      + (* answered from the cache *)
+        destruct (replay_only_same_ack _ _ _ Ep) as [Hack Hpay].
+        destruct lost.
+        * split; [|discriminate]. apply (inv_same y); try reflexivity; [exact HI|exact (i_split y HI)].
+        * assert (Hfl : forall v', v_seen v' = (if existsb (N.eqb (p_id p)) (v_seen (y_viewer y)) then v_seen (y_viewer y) else p_id p :: v_seen (y_viewer y)) ->
+                        existsb (N.eqb (p_id p)) (v_seen v') = true).
+          { intros v' Hv. rewrite Hv. destruct (existsb (N.eqb (p_id p)) (v_seen (y_viewer y))) eqn:Es; [exact Es|].
+            cbn. rewrite N.eqb_refl. reflexivity. }
+          assert (Hin_fl : in_flight (mkSys (y_eq y) (viewer_receive (y_viewer y) p) (y_sim y) (y_served y) (y_injected y)) = []).
+          { unfold in_flight. cbn [y_eq y_viewer]. rewrite Hpay. rewrite Hfl; [reflexivity|].
+            unfold viewer_receive. destruct (existsb (N.eqb (p_id p)) (v_seen (y_viewer y))); reflexivity. }
+          split; [|intros _ _; exact Hin_fl].
+          destruct HI as [H0 H1 H2 H3 H4 H5 H6].
+          constructor; rewrite ?Hin_fl; cbn [y_eq y_viewer y_sim y_served y_injected]; try assumption.
+          -- intros i Hi. unfold viewer_receive in Hi.
+             destruct (existsb (N.eqb (p_id p)) (v_seen (y_viewer y))); cbn [v_seen] in Hi; [apply H2; exact Hi|].
+             destruct Hi as [<-|Hi]; [apply (H3 p Hpay)|apply H2; exact Hi].
+          -- intros p0 Hp0 Hns. rewrite Hpay in Hp0. inversion Hp0; subst p0.
+             rewrite Hfl in Hns; [discriminate|].
+             unfold viewer_receive. destruct (existsb (N.eqb (p_id p)) (v_seen (y_viewer y))); reflexivity.
+          -- rewrite <- H5. unfold in_flight, viewer_receive. rewrite Hpay.
+             destruct (existsb (N.eqb (p_id p)) (v_seen (y_viewer y))); cbn [v_accepted]; rewrite ?app_nil_r; reflexivity.
+          -- rewrite <- H6. unfold in_flight, viewer_receive. rewrite Hpay.
+             destruct (existsb (N.eqb (p_id p)) (v_seen (y_viewer y))); cbn [v_accepted]; rewrite ?app_nil_r; reflexivity.
+      + (* forwarded to the simulator *)
+        pose proof (miss_no_in_flight y HI Ep) as Hnf.
+        assert (Hquiet : forall sim',
+                   y_served y ++ sim' = batches ->
+                   let y' := mkSys (y_eq y) (y_viewer y) sim' (y_served y) (y_injected y) in
+                   Inv y' /\ (forall reply0 : sim_reply, YCycle reply lost = YCycle reply0 false -> in_flight y' = [])).
+        { intros sim' Hsp y'. split.
+          - apply (inv_same y); try reflexivity; [exact HI|exact Hsp].
+          - intros _ _. unfold in_flight in *. exact Hnf. }
+        destruct reply as [|st|].
+        * destruct (y_sim y) as [|b rest] eqn:Esim.
+          -- (* nothing left: a timeout *)
+             rewrite (non200_untouched swallow (y_eq y) (v_ack (y_viewer y)) 502 None eq_refl).
+             destruct lost; cbn [N.eqb]; apply (Hquiet []); rewrite <- Esim; exact (i_split y HI).
+          -- (* the next batch *)
+             pose proof (fresh_id y b rest HI Esim) as Hfresh.
+             pose proof (batch_tagged y b rest HI Esim) as Htag.
+             destruct (response_takes_all swallow (y_eq y) (v_ack (y_viewer y)) b) as [Hq [Hack [Hpay Hout]]].
+             destruct (poll_response swallow (y_eq y) (v_ack (y_viewer y)) 200 (Some b)) as [q' out] eqn:Er.
+             cbn [fst snd] in Hq, Hack, Hpay, Hout.
+             destruct HI as [H0 H1 H2 H3 H4 H5 H6].
+             destruct (filter_sim_inj_tagged _ H1) as [Fq1 Fq2].
+             destruct (filter_sim_sim_tagged _ (keep_sim swallow _ Htag)) as [Fk1 Fk2].
+             assert (Hsplit' : (y_served y ++ [b]) ++ rest = batches) by (rewrite <- app_assoc; cbn; rewrite <- Esim; exact H0).
+             assert (Hseen' : forall i, In i (v_seen (y_viewer y)) -> In i (map p_id (y_served y ++ [b])))
+               by (intros i Hi; rewrite map_app; apply in_or_app; left; apply H2; exact Hi).
+             assert (Hidb : In (p_id b) (map p_id (y_served y ++ [b])))
+               by (rewrite map_app; apply in_or_app; right; left; reflexivity).
+             rewrite Hnf, app_nil_r in H5, H6.
+             destruct Hout as [Hout|[Hout Hnil]].
+             ++ (* a body goes out *)
+                set (p' := mkPayload (p_id b) (keep swallow (p_events b) ++ q_queued (y_eq y))) in *. rewrite Hout in *. clear Hout.
+                destruct lost; change (N.eqb 200 200) with true; cbn iota.
+                ** (* ... and is lost: it is now in flight *)
+                   assert (Hfl : in_flight (mkSys q' (y_viewer y) rest (y_served y ++ [b]) (y_injected y)) = p_events p').
+                   { unfold in_flight. cbn [y_eq y_viewer]. rewrite Hpay. cbn [p_id p']. rewrite Hfresh. reflexivity. }
+                   split; [|discriminate].
+                   constructor; rewrite ?Hfl; cbn [y_eq y_viewer y_sim y_served y_injected]; try assumption.
+                   --- rewrite Hq. constructor.
+                   --- intros p0 Hp0. rewrite Hpay in Hp0. inversion Hp0; subst p0. exact Hidb.
+                   --- intros p0 _ _. exact Hack.
+                   --- cbn [p_events p']. rewrite served_snoc, !filter_app, Fk1, Fq1, app_nil_r, H5. reflexivity.
+                   --- cbn [p_events p']. rewrite Hq, app_nil_r, !filter_app, Fk2, Fq2. cbn [app]. exact H6.
+                ** (* ... and is received *)
+                   assert (Hv : viewer_receive (y_viewer y) p' =
+                                mkViewer (Some (p_id b)) (p_id b :: v_seen (y_viewer y)) (v_accepted (y_viewer y) ++ p_events p')).
+                   { unfold viewer_receive. cbn [p_id p']. rewrite Hfresh. reflexivity. }
+                   rewrite Hv.
+                   assert (Hfl : in_flight (mkSys q' (mkViewer (Some (p_id b)) (p_id b :: v_seen (y_viewer y)) (v_accepted (y_viewer y) ++ p_events p'))
+                                               rest (y_served y ++ [b]) (y_injected y)) = []).
+                   { unfold in_flight. cbn [y_eq y_viewer v_seen]. rewrite Hpay. cbn [p_id p' existsb]. rewrite N.eqb_refl. reflexivity. }
+                   split; [|intros _ _; exact Hfl].
+                   constructor; rewrite ?Hfl; cbn [y_eq y_viewer y_sim y_served y_injected v_seen v_accepted v_ack]; try assumption.
+                   --- rewrite Hq. constructor.
+                   --- intros i [<-|Hi]; [exact Hidb|apply Hseen'; exact Hi].
+                   --- intros p0 Hp0. rewrite Hpay in Hp0. inversion Hp0; subst p0. exact Hidb.
+                   --- intros p0 Hp0 Hns. rewrite Hpay in Hp0. inversion Hp0; subst p0.
+                       cbn [p_id p' existsb] in Hns. rewrite N.eqb_refl in Hns. discriminate.
+                   --- cbn [p_events p']. rewrite app_nil_r, served_snoc, !filter_app, Fk1, Fq1, app_nil_r, H5. reflexivity.
+                   --- cbn [p_events p']. rewrite Hq, !app_nil_r, !filter_app, Fk2, Fq2. cbn [app]. exact H6.
+             ++ (* everything was swallowed and nothing was queued: undef goes out *)
+                rewrite Hout in *. clear Hout. apply app_eq_nil in Hnil as [Hk0 Hq0].
+                assert (Hfl : in_flight (mkSys q' (y_viewer y) rest (y_served y ++ [b]) (y_injected y)) = []).
+                { unfold in_flight. cbn [y_eq]. rewrite Hpay. reflexivity. }
+                assert (Hv : (if lost then y_viewer y else match N.eqb 200 200 with true => y_viewer y | false => y_viewer y end) = y_viewer y)
+                  by (destruct lost; reflexivity).
+                assert (Hgoal : Inv (mkSys q' (y_viewer y) rest (y_served y ++ [b]) (y_injected y))).
+                { constructor; rewrite ?Hfl; cbn [y_eq y_viewer y_sim y_served y_injected]; try assumption.
+                  - rewrite Hq. constructor.
+                  - intros p0 Hp0. rewrite Hpay in Hp0. discriminate.
+                  - intros p0 Hp0. rewrite Hpay in Hp0. discriminate.
+                  - rewrite app_nil_r, served_snoc, Hk0, app_nil_r. exact H5.
+                  - rewrite Hq, !app_nil_r. rewrite Hq0, app_nil_r in H6. exact H6. }
+                destruct lost; change (N.eqb 200 200) with true; cbn iota; (split; [exact Hgoal|intros _ _; exact Hfl]).
+        * rewrite undef_body_untouched.
+          assert (Hv : (if lost then y_viewer y else match N.eqb st 200 with true => y_viewer y | false => y_viewer y end) = y_viewer y)
+            by (destruct lost; [reflexivity|destruct (N.eqb st 200); reflexivity]).
+          destruct lost; [|destruct (N.eqb st 200)]; apply (Hquiet (y_sim y)); exact (i_split y HI).
+        * rewrite undef_body_untouched.
+          destruct lost; change (N.eqb 200 200) with true; cbn iota; apply (Hquiet (y_sim y)); exact (i_split y HI).
+  Qed.
+
+  Lemma inv_run : forall ops y, Inv y -> Inv (sys_run swallow ops y).
+  Proof.
+    unfold sys_run. induction ops as [|o ops IH]; intros y HI; cbn [fold_left]; [exact HI|].
+    apply IH. apply inv_step. exact HI.
+  Qed.
+
+  (* delivered_stream for a lossy, re-polling viewer: at any moment of any run, what the viewer has accepted
+     (each response once, by id), plus the one body still in flight, is exactly: the non-swallowed events of
+     the batches the simulator has sent, in order, and every injected event that is not still queued, once,
+     in injection order; and the simulator has sent a prefix of its batches *)
+  Theorem viewer_stream : forall ops,
+    let y := sys_run swallow ops (sys_init batches) in
+    filter is_sim (v_accepted (y_viewer y) ++ in_flight y) = keep swallow (flat_map p_events (y_served y)) /\
+    filter is_inj (v_accepted (y_viewer y) ++ in_flight y) ++ q_queued (y_eq y) = y_injected y /\
+    y_served y ++ y_sim y = batches.
+  Proof.
+    intros ops y. destruct (inv_run ops _ inv_init) as [H0 _ _ _ _ H5 H6]. auto.
+  Qed.
+
+  (* nothing stays in flight once a response gets through *)
+  Theorem viewer_caught_up : forall ops reply,
+    in_flight (sys_run swallow (ops ++ [YCycle reply false]) (sys_init batches)) = [].
+  Proof.
+    intros ops reply. unfold sys_run. rewrite fold_left_app. cbn [fold_left].
+    apply (proj2 (inv_step _ (YCycle reply false) (inv_run ops _ inv_init)) reply eq_refl).
+  Qed.
+
+  (* a lost response makes the viewer's next poll a cache hit: the simulator is not asked again *)
+  Theorem lost_response_replayed : forall ops p,
+    let y := sys_run swallow ops (sys_init batches) in
+    q_last_payload (y_eq y) = Some p -> existsb (N.eqb (p_id p)) (v_seen (y_viewer y)) = false ->
+    poll_request (y_eq y) (v_ack (y_viewer y)) = Some p.
+  Proof.
+    intros ops p y Hp Hs. pose proof (i_pending_key y (inv_run ops _ inv_init) p Hp Hs) as Hk.
+    unfold poll_request. rewrite Hk, opt_N_eqb_refl. exact Hp.
+  Qed.
+End Composition.
